@@ -149,6 +149,10 @@ bool is_private_or_reserved_host(const std::string& host) {
 
 }  // namespace
 
+bool is_non_routable_advertise_host(const std::string& host) {
+    return is_private_or_reserved_host(host);
+}
+
 AdvertiseDiscoveryResult discover_control_advertise_candidates(const Config& config) {
     AdvertiseDiscoveryResult result;
     const std::string local_address = config.control_host.empty() ? std::string{"0.0.0.0"} : config.control_host;
